@@ -628,7 +628,11 @@ func itemsStringOf(s *an.Term) string {
 }
 
 // c02HashLock: every access to the cache fields happens with tx.hashLock held (deferred unlock).
-func c02HashLock(r *core.Run, p *core.Program, fn *ssa.Function, key string) {
+func c02HashLock(r *core.Run, p *core.Program, fn *ssa.Function, key string, rule ...string) {
+	ruleID := "R-C02-cache"
+	if len(rule) > 0 {
+		ruleID = rule[0]
+	}
 	la := an.NewLockAnalysis(p)
 	held := la.HeldBefore(fn)
 	bad := ""
@@ -663,7 +667,7 @@ func c02HashLock(r *core.Run, p *core.Program, fn *ssa.Function, key string) {
 			bad = f + " accessed at " + p.Pos(an.InstrPos(i)) + " without the hash lock"
 		}
 	})
-	r.Check(bad == "" && n > 0, "R-C02-cache", key+"/hash-lock", p.Pos(fn.Pos()), fmt.Sprintf("%d cache field accesses, all under tx.hashLock", n), "cache access outside the lock: "+bad)
+	r.Check(bad == "" && n > 0, ruleID, key+"/hash-lock", p.Pos(fn.Pos()), fmt.Sprintf("%d cache field accesses, all under tx.hashLock", n), "cache access outside the lock: "+bad)
 }
 
 func c02BIP341(r *core.Run, p *core.Program) {
